@@ -41,6 +41,10 @@ STACK_PROGRAMS = [
     ("do error [1, 2.0] catch [1.0, 2] 'h' end", "'h'"),
     ("do do error 2 catch 2.5 'inner' end catch 2.0 'outer' end", "'outer'"),
     ("do error <<1, 2>> catch <<2.0, 1.0>> 'h' end", "'h'"),
+    # a value that holds itself is an error value like any other: nothing renders it while it travels
+    ("def l = [1]; append(l, l); do error l catch 'ERROR' 'wrong' catch all 'right' end", "'right'"),
+    ("def l = [1]; append(l, l); def r = []; do do error l finally append(r, 'fin') end catch 'ERROR' append(r, 'wrong') "
+     "catch all append(r, 'h') end; r", "['fin', 'h']"),
 ]
 
 
